@@ -364,3 +364,58 @@ func pick(n, m int, rnd *rand.Rand) []int {
 	}
 	return out
 }
+
+// mapValue returns the value node stored under a text key of a map node (nil if absent).
+func mapValue(n *node, key string) *node {
+	if n == nil || n.mt != 5 {
+		return nil
+	}
+	for i := 0; i+1 < len(n.kids); i += 2 {
+		if n.kids[i].mt == 3 && string(n.kids[i].payload) == key {
+			return n.kids[i+1]
+		}
+	}
+	return nil
+}
+
+// resimulated returns the encoding enc with the commitment and the response of repetition 0 replaced by
+// the encodings newA, newZ (keys "A"/"Z" of a Fiat-Shamir proof, first elements of "a"/"z" otherwise).
+func resimulated(enc []byte, fs bool, newA, newZ []byte) ([]byte, error) {
+	root, err := parseCBOR(enc)
+	if err != nil {
+		return nil, err
+	}
+	na, err := parseCBOR(newA)
+	if err != nil {
+		return nil, err
+	}
+	nz, err := parseCBOR(newZ)
+	if err != nil {
+		return nil, err
+	}
+	put := func(key string, v *node) error {
+		t := mapValue(root, key)
+		if t == nil {
+			return errCBOR
+		}
+		if !fs {
+			if t.mt != 4 || len(t.kids) == 0 {
+				return errCBOR
+			}
+			t = t.kids[0]
+		}
+		*t = *v
+		return nil
+	}
+	ka, kz := "a", "z"
+	if fs {
+		ka, kz = "A", "Z"
+	}
+	if err := put(ka, na); err != nil {
+		return nil, err
+	}
+	if err := put(kz, nz); err != nil {
+		return nil, err
+	}
+	return root.encode(nil), nil
+}
